@@ -1,4 +1,5 @@
-(* C11 -- Output buffers: size checked, every byte written, all wrappings agree.          (PARTIAL, grows with the models)
+(* C11 -- Output buffers: size checked, every byte written, all wrappings agree.
+   (FULL at model level up to the side conditions of C01 / C02: modules RI, RIC, LL below; the wrappings simple / VP8X; the single-ANMF-frame wrapping is decided by the harness and by C06's theorems)
    Proved here, for all inputs, about the modelled write paths of read_image:
      * lossy RGB path: every byte of the buffer is determined by the planes alone (no dependence on prior contents);
      * lossy RGBA path: colour bytes determined by the planes; the alpha loop then determines every alpha byte from the
